@@ -72,6 +72,14 @@ func vSessStartHold(id, mode string, ibgp bool, hold uint16, gated bool, seed in
 		peerASN = 64600
 	}
 	r.p = vSessNewPeer(r.l, r.u, peerASN, hold)
+	r.p.vary, r.p.myASN = true, myASN
+	r.p.rng = rand.New(rand.NewSource(seed*7919 + 17))
+	if gated {
+		r.p.holds = []uint16{0, 30} // no keepalive traffic within a gated run
+	} else {
+		r.p.holds = []uint16{hold, hold, 0, 3, 30}
+	}
+	r.p.start()
 	r.p.setWrong(wrongFirst)
 	if holdFirst {
 		r.p.armHold()
@@ -173,14 +181,16 @@ func (r *vSessRun) doClose() {
 
 // waitCallsSoft waits for the calls in progress without abandoning anything.
 func (r *vSessRun) waitCallsSoft(limit time.Duration) {
-	deadline := time.After(limit)
+	deadline := time.Now().Add(limit)
 	left := r.pending[:0]
 	for _, done := range r.pending {
+		t := time.NewTimer(time.Until(deadline))
 		select {
 		case <-done:
-		case <-deadline:
+		case <-t.C:
 			left = append(left, done)
 		}
+		t.Stop()
 	}
 	r.pending = left
 }
@@ -193,8 +203,30 @@ func (r *vSessRun) unblock() {
 		r.c.waitFor(700*time.Millisecond, func() bool { return r.l.holdC == 0 }, nil)
 		r.c.stabilize()
 	}
+	r.drainCalls()
+}
+
+// drainCalls: there is ONE caller (the model's `call` variable, and the meaning of "the most
+// recently requested set"): before the next call is issued the one in progress must have
+// returned.  If it is blocked because the replay has drifted from the schedule (the peer still
+// holds a handshake back, the sender sits at a gate with s.mu held), the blockers are moved on.
+func (r *vSessRun) drainCalls() {
+	for n := 0; n < 60 && len(r.pending) > 0; n++ {
+		r.waitCallsSoft(20 * time.Millisecond)
+		if len(r.pending) == 0 {
+			return
+		}
+		if r.holding() {
+			r.p.release()
+			r.c.waitFor(700*time.Millisecond, func() bool { return r.l.holdC == 0 }, nil)
+		}
+		if r.c.senderHoldsLock() {
+			r.c.releaseSender()
+		}
+		r.c.stabilize()
+	}
 	if len(r.pending) > 0 {
-		r.waitCallsSoft(700 * time.Millisecond)
+		r.waitCalls(2 * time.Second) // gives the schedule up (gates open), not the run
 	}
 }
 
@@ -435,7 +467,11 @@ type vSessSchedule struct {
 }
 
 func vSessGatedRun(sc vSessSchedule) *vSessLog {
-	r := vSessStart(sc.ID, "gated", sc.Ibgp, 0, true, 0, 0)
+	var h int64
+	for _, ch := range sc.ID {
+		h = h*131 + int64(ch)
+	}
+	r := vSessStart(sc.ID, "gated", sc.Ibgp, 0, true, h, 0)
 	defer r.finish()
 	c := r.c
 	c.stabilize() // the sender arrives at gate.connect
@@ -455,6 +491,7 @@ func vSessGatedRun(sc vSessSchedule) *vSessLog {
 				c.waitFor(700*time.Millisecond, func() bool { return r.l.holdC != 0 || c.sstate != vSessRunning }, nil)
 			}
 		case "CallSet":
+			r.drainCalls()
 			t := vSessEmptyTable()
 			for k, v := range st.S {
 				t[k] = v
@@ -462,6 +499,7 @@ func vSessGatedRun(sc vSessSchedule) *vSessLog {
 			r.startSet(t)
 		case "CallClose":
 			if !r.closed {
+				r.drainCalls()
 				r.startClose()
 			}
 		case "RunCall":
